@@ -7,7 +7,7 @@ package eng
 // over net.Pipe; on its end of every session the harness serves a tiny echo gRPC service that
 // reports which session served the call.  Everything runs inside one testing/synctest bubble.
 //
-// Ops:  begin <N> [role] | add | add hiccup | remove <k> remote|local | rpc | inflight <k> | rapid | cancel
+// Ops:  begin <N> [role] | add | add hiccup | remove <k> remote|local | rpc | inflight <k> | rapid | idle | cancel
 // State observation: keys=<GetMuxConnections()> conn=<keys of MultiClientConn.connMap, parsed from Describe()>
 // dialed=<sessions on which the client connection currently holds a transport (yamux stream)> can=<CanMakeCalls()>;
 // rpc: ok | unavailable | blocked (no resolver state yet: deadline) | closed.
@@ -271,6 +271,27 @@ func c11Run(t *testing.T, e *Env, body []string, next func(w *muxWorld, step int
 			updates++
 			emit(fmt.Sprintf("inflight %d", idx), obs+" "+c11Observe(w))
 			checkSync(op)
+		case op == "idle":
+			// a quiet period longer than the client connection's idle timeout (30 min by default), then a call: the channel
+			// re-enters service with the LAST APPLIED session list, whatever happened to its internals while idle
+			if applied && !w.cancelled {
+				time.Sleep(31 * time.Minute)
+				synctest.Wait()
+			}
+			reg := w.regIDs()
+			c := c11Invoke(w)
+			synctest.Wait()
+			emit(op, c.obs+" "+c11Observe(w))
+			switch {
+			case w.cancelled:
+			case c.obs == "ok" && !contains(reg, c.servedBy):
+				violation(fmt.Sprintf("after a quiet period the call was served by session %q which is not registered (registered: %v)", c.servedBy, reg))
+			case len(reg) > 0 && c.obs != "ok":
+				violation(fmt.Sprintf("after a quiet period of 31 minutes %d session(s) are registered but the call ended %s", len(reg), c.obs))
+			}
+			if !w.cancelled {
+				checkSync(op)
+			}
 		case op == "rapid":
 			// rapid add/remove of the same slots and the empty set: a burst of session-list updates delivered to the client
 			// connection without settling in between (the empty table, single slots, the full table, ...), the LAST one
@@ -357,6 +378,8 @@ func TestC11(t *testing.T) {
 			{"begin 2 receiver", "add", "rpc", "add hiccup", "rpc", "rpc", "remove 0 local", "rpc", "rapid", "rpc"},
 			{"begin 3 establisher", "add hiccup", "add hiccup", "rpc", "add", "rpc", "rpc", "rpc", "remove 2 remote", "rpc", "remove 1 local", "rpc"},
 			{"begin 1 receiver", "add hiccup", "rpc", "remove 0 remote", "rpc", "add hiccup", "rpc"},
+			{"begin 2 establisher", "add", "add", "rpc", "idle", "rpc", "remove 0 remote", "rpc", "idle", "rpc", "add", "rpc"},
+			{"begin 1 receiver", "idle", "add", "idle", "rpc", "remove 0 local", "idle", "add", "rpc"},
 		} {
 			c11Run(t, e, h, nil)
 		}
